@@ -9,8 +9,8 @@ Line protocol of the cache model driver (used by `c07_model` and `c08_model`).
   `<result> | <size> <trigCount>`.
 * `J <impl answer …> ; <case line …>` lines run the *specification* (`Spec.step`) over the history
   and judge the implementation's answer with the property predicate (`OutOk`-style: a hit must be
-  the specification's entry, a miss is allowed only where eviction is possible, the entry count
-  respects the limit).  Answer `1` or `0 <reason>`.
+  the specification's entry, a miss is allowed only where eviction is possible).  Answer `1` or
+  `0 <reason>`.  `JL …` lines judge only C08's limit clause (entry count ≤ limit).
 
 Annotations on `store` lines (oracle answers recorded from the real allocator by the harness):
 `copyfail` → `StoreEnv.copyFails`; `cleared`, `bumped` → `lateFails`; `keys=<n>` → the number of
@@ -121,12 +121,12 @@ def nodupB : List Key → Bool
 def splitAt (sep : String) (w : List String) : List String × List String :=
   (w.takeWhile (· ≠ sep), (w.dropWhile (· ≠ sep)).drop 1)
 
-def judgeLine (st : DState) (w : List String) : DState × String :=
+def judgeLine (limitClause : Bool) (st : DState) (w : List String) : DState × String :=
   let (implw, casew) := splitAt ";" w
   let (res, tailw) := splitAt "|" implw
   let j := st.j
   let j := if tailw.contains "lowmem" then { j with pressure := true } else j
-  -- entry count within the limit (C08 clause, judged on every line)
+  -- entry count within the limit (C08's clause; judged only in `JL` mode)
   let keysOk : Bool := match tailw with
     | k :: _ => (match k.toNat? with | some n => j.limit == 0 || n ≤ j.limit | none => false)
     | [] => false
@@ -139,7 +139,7 @@ def judgeLine (st : DState) (w : List String) : DState × String :=
     match parseOp casew with
     | none => (st, "0 bad-case")
     | some (op, _) =>
-      if !keysOk then ({ st with j := j }, "0 size-exceeds-limit") else
+      if limitClause && !keysOk then ({ st with j := j }, "0 size-exceeds-limit") else
       match op with
       | .store _ _ _ _ _ g _ =>
         let copyfail := res.contains "copyfail"
@@ -174,7 +174,11 @@ def judgeLine (st : DState) (w : List String) : DState × String :=
 
 def stepLine (st : DState) (line : String) : DState × String :=
   match words line with
-  | "J" :: rest => judgeLine st rest
+  | "J" :: rest => judgeLine false st rest
+  | "JL" :: rest =>
+    -- limit clause only (C08 under memory pressure): every other verdict of the C07 judge is ignored
+    let (st', v) := judgeLine true st rest
+    (st', if v == "0 size-exceeds-limit" || v == "0 bad-case" || v == "0 bad-new" then v else "1")
   | w => modelLine st w
 
 end Cppcms.C07.Proto
